@@ -73,7 +73,13 @@ pub fn check_error_shape(e: &JmespathError, expr: &str, doc: &Value, sub: &str, 
         return false;
     }
     let want = render(&e.reason.to_string(), e.line, e.column, expr);
-    let got = e.to_string();
+    let got = match guarded(|| e.to_string()) {
+        Ok(g) => g,
+        Err(m) => {
+            st.violate(viol("C12/rendering-panics", sub, &crate::engine::trunc(expr, 300), doc, "the message renders".into(), format!("panic: {}", m)));
+            return false;
+        }
+    };
     if want != got {
         st.violate(viol("C12/rendering", sub, expr, doc, want, got));
         return false;
